@@ -212,6 +212,11 @@ func cmdCheck(args []string) int {
 	os.RemoveAll(filepath.Join(outDir, "replay", prop))
 	ts := time.Now()
 	DischargeAll(all, timeout, runtime.NumCPU())
+	var confirm map[string]int
+	if !quick {
+		// thorough tier: every proved obligation is re-decided by a solver of the other family
+		confirm = ConfirmAll(all, 20, runtime.NumCPU())
+	}
 	solveT := time.Since(ts)
 	// 4. report
 	known := loadKnown()
@@ -312,6 +317,34 @@ func cmdCheck(args []string) int {
 			fmt.Printf("slow: %.2fs %s %s %s\n", all[i].TimeS, all[i].Status, all[i].Solver, all[i].Name)
 		}
 	}
+	if confirm != nil {
+		ev.Coverage.CrossSolver = confirm
+		// thorough tier: canary replays - the model-free replay harnesses of this property's functions are run
+		// against the real code although every obligation passed; a harness that reproduces a violation then
+		// exposes a hole in the contracts (or a defect they do not state)
+		seen := map[string]bool{}
+		for _, o := range all {
+			h := findHarness(o)
+			if h == nil || !h.modelFree || seen[h.name] {
+				continue
+			}
+			seen[h.name] = true
+			out := h.run(eng, o)
+			res := "not-reproduced"
+			if out != nil && out.Confirmed {
+				res = "REPRODUCED"
+				ev.Coverage.Obligations++
+				oo := *o
+				oo.Status = "canary"
+				oo.Name = o.Name + "/canary"
+				replayOutcomes[oo.Name] = out
+				out.Harness = h.name
+				fmt.Printf("FAILED canary replay %q reproduces a violation on the real code although the obligations of %s pass\n", h.name, o.Func)
+				fail(o.Name+"/canary", "canary replay reproduces a violation although all obligations pass: "+h.name, &oo, true)
+			}
+			ev.Coverage.CanaryReplays = append(ev.Coverage.CanaryReplays, map[string]string{"harness": h.name, "result": res})
+		}
+	}
 	ev.Coverage.ObligationsByKind = byKind
 	ev.Coverage.BySolver = bySolver
 	ev.Coverage.SolverTimeS = round3(solverTime)
@@ -381,6 +414,8 @@ type Evidence struct {
 		Samples           []map[string]interface{} `json:"samples"`
 		ObligationsByKind map[string]int           `json:"obligations_by_kind,omitempty"`
 		BySolver          map[string]int           `json:"by_solver,omitempty"`
+		CrossSolver       map[string]int           `json:"cross_solver_confirmation,omitempty"`
+		CanaryReplays     []map[string]string      `json:"canary_replays,omitempty"`
 		SolverTimeS       float64                  `json:"solver_time_s"`
 		GenTimeS          float64                  `json:"vcgen_time_s"`
 		SolveWallS        float64                  `json:"solve_wall_s"`
